@@ -474,3 +474,31 @@ B('d5_b_debug_not_found_init_overwrites_code', ['C09'], 'R09.a', (E, _CNF_SUPER,
 T('d5_t_escaped_dict_override_extends', ['C09', 'C08'],
   (E, _ISE_TO_DICT_DEF, "    def to_escaped_dict(self):\n        ret = super(InternalServerError, self).to_escaped_dict()\n"
                         "        ret['exc_summary'] = html_escape(repr(self.exc_info), True)\n        return ret\n\n" + _ISE_TO_DICT_DEF))
+
+# ------------------------------------------------------------------ sixth pass: what answers an uncaught exception, class-level defaults, attribute position
+_UNCAUGHT_BASE = "        return eh.server_error_type(repr(exc_info),\n"
+_UNCAUGHT_CTX = "        SEType = eh.server_error_type\n"
+_HREF = "'<a target=\"_blank\" href=\"{error_type}\">'"
+_MNA_DETAIL = "            self.detail = '%s Allowed methods: %r' % (self.detail,\n                                                      method_list)\n"
+T('d6_t_uncaught_helper_with_extra_kwargs', ['C09', 'C08'],
+  (E, "        eh = _application.error_handler\n        exc_info = eh.exc_info_type.from_current()\n        return eh.server_error_type(repr(exc_info),\n"
+      "                                    exc_info=exc_info,\n                                    source_route=_route)\n",
+      "        return self._wrap_current(_application, _route)\n\n    @staticmethod\n    def _wrap_current(_application, _route, **extra):\n"
+      "        eh = _application.error_handler\n        exc_info = eh.exc_info_type.from_current()\n        error_type = eh.server_error_type\n"
+      "        return error_type(repr(exc_info), exc_info=exc_info, source_route=_route, **extra)\n"))
+T('d6_t_href_single_quoted', ['C09', 'C08'], (E, _HREF, "'<a target=\"_blank\" href=\\'{error_type}\\'>'"))
+T('d6_t_mna_detail_named_first', ['C09'],
+  (E, _MNA_DETAIL, "            with_methods = '%s Allowed methods: %r' % (self.detail, method_list)\n            self.detail = with_methods\n"))
+B('d6_b_uncaught_answers_with_404_slot', ['C09'], 'R09.a', (E, _UNCAUGHT_BASE, "        return eh.not_found_type(repr(exc_info),\n"))
+B('d6_b_debug_uncaught_fixed_class', ['C09'], 'R09.a', (E, _UNCAUGHT_CTX, "        SEType = ContextualNotFound\n"))
+B('d6_b_uncaught_helper_returns_nothing', ['C09'], 'R09.a',
+  (E, "        return eh.server_error_type(repr(exc_info),\n                                    exc_info=exc_info,\n                                    source_route=_route)\n",
+      "        response = eh.server_error_type(repr(exc_info),\n                                        exc_info=exc_info,\n                                        source_route=_route)\n"))
+B('d6_b_href_unquoted', ['C09'], 'R09.c', (E, _HREF, "'<a target=\"_blank\" href={error_type}>'"))
+B('d6_b_xml_attribute_unquoted', ['C09'], 'R09.c',
+  (E, "               '<error_type>{error_type}</error_type>'\n", "               '<error_type href={error_type}>{error_type}</error_type>'\n"))
+B('d6_b_generated_xml_attribute_unquoted', ['C09'], 'R09.c', (E, _AFTER_DEFAULT_MIME, _AFTER_DEFAULT_MIME + _XML_FIELDS_CONST),
+  (E, _XML_BODY, _XML_GENERATED.replace("'<{0}>{{{0}}}</{0}>'.format(name)", "'<field name={{{0}}}>{{{0}}}</field>'.format(name)")))
+B('d6_b_allowed_methods_detail_on_the_class', ['C09'], 'R09.a', (E, _MNA_DETAIL, _MNA_DETAIL.replace("            self.detail = ", "            type(self).detail = ")))
+B('d6_b_given_code_stored_on_the_class', ['C09'], 'R09.a', (E, _INIT_CODE, "        self.code = self.__class__.code = kwargs.pop('code', self.code)\n"))
+B('d6_b_message_default_patched_on_the_class', ['C09'], 'R09.a', (E, _INIT_MESSAGE, _INIT_MESSAGE + "        HTTPException.message = self.message\n"))
